@@ -4,6 +4,7 @@ import (
 	"fmt"
 	"go/token"
 	"go/types"
+	"regexp"
 	"sort"
 	"strings"
 
@@ -212,6 +213,7 @@ func c08(c *Ctx) (*report.Result, error) {
 	res.RuleDoc["O8.1"] = "cleanup removes only its own entry: every call made by a stream incarnation's cleanup (deferred calls and post-run statements of the four Run functions and of ensureStream's goroutine) that reaches a delete on a per-shard registry reaches only deletes guarded by a comparison of the stored entry with the incarnation's own identity, inside the critical section of the lookup"
 	res.RuleDoc["O8.6"] = "registration bookkeeping cannot wedge itself: inside a critical section of any mutex of the shard manager, the intra-proxy manager or the stream structs no call acquires the same (non-reentrant) mutex again, and these mutexes nest in one order"
 	res.RuleDoc["O8.7"] = "no worker outlives its latch: every back-off loop (a cycle through time.Sleep) of package proxy re-checks a shutdown latch / context, or a deadline, on every way round - a retry loop that only looks at the latch in one branch keeps its goroutine alive for ever once the thing it waits for is gone"
+	res.RuleDoc["O8.9"] = "registry keys are injective: ClusterShardIDtoShortString, the key of the local-shard table, renders both the cluster id and the shard id, separated by a non-digit - two different shards (1:12 / 11:2, or the same shard number of two clusters) never share an entry"
 	res.RuleDoc["O8.5"] = "identity tokens are fresh per registration: the time RegisterShard hands back is time.Now() of that very call and is what the stored entry carries, on every path (two incarnations can never share a token)"
 	res.RuleDoc["O8.2"] = "sends on a closable channel are recover-guarded: every send on a chan RoutedMessage (the only registered channel type its owner closes) lies in a function with a deferred recover()"
 	res.RuleDoc["O8.3"] = "successor evicts before it registers: the receiver terminates its predecessor before registering its own channel/cancel/receiver; the sender registers its delivery channel before announcing ownership"
@@ -390,6 +392,7 @@ func c08(c *Ctx) (*report.Result, error) {
 			return owner != "ReplicationStreamObserver" && owner != "StreamTracker"
 		}, proxyLockAllowed)
 	}
+	checkShardKeyFunction(c, res, "O8.9")
 	return res, nil
 }
 
@@ -740,13 +743,61 @@ func checkBackoffLoops(c *Ctx, res *report.Result, rule string) {
 
 // proxyLockAllowed: reviewed blocking operations under package proxy's locks.
 var proxyLockAllowed = map[string]string{
-	"(*proxy.intraProxyManager).ensurePeer [streamsMu]: call (*google.golang.org/grpc.ClientConn).Close":                              "the replaced peer connection is closed while the peer table is locked; ClientConn.Close does not wait for RPCs",
-	"(*proxy.shardEventDelegate).NotifyLeave [mlMutex]: call (*github.com/hashicorp/memberlist.Memberlist).NumMembers":                "mlMutex exists to serialise memberlist API calls; NumMembers reads local state",
-	"(*proxy.shardManagerImpl).RegisterShard$1 [mlMutex]: call (*github.com/hashicorp/memberlist.Memberlist).UpdateNode":               "mlMutex exists to serialise memberlist API calls; runs in its own goroutine",
-	"(*proxy.shardManagerImpl).UnregisterShard$1 [mlMutex]: call (*github.com/hashicorp/memberlist.Memberlist).UpdateNode":             "mlMutex exists to serialise memberlist API calls; runs in its own goroutine",
-	"(*proxy.shardManagerImpl).broadcastShardChange$1 [mlMutex]: call (*github.com/hashicorp/memberlist.Memberlist).Members":           "mlMutex exists to serialise memberlist API calls; runs in its own goroutine",
-	"(*proxy.shardManagerImpl).broadcastShardChange$1 [mlMutex]: call (*github.com/hashicorp/memberlist.Memberlist).SendReliable":      "mlMutex exists to serialise memberlist API calls; runs in its own goroutine",
-	"(*proxy.shardManagerImpl).retryJoinCluster [mlMutex]: call (*github.com/hashicorp/memberlist.Memberlist).Join":                    "mlMutex exists to serialise memberlist API calls",
-	"(*proxy.shardManagerImpl).shutdownMemberlist [mlMutex]: call (*github.com/hashicorp/memberlist.Memberlist).Leave":                 "mlMutex exists to serialise memberlist API calls (shutdown)",
-	"(*proxy.shardManagerImpl).shutdownMemberlist [mlMutex]: call (*github.com/hashicorp/memberlist.Memberlist).Shutdown":              "mlMutex exists to serialise memberlist API calls (shutdown)",
+	"(*proxy.intraProxyManager).ensurePeer [streamsMu]: call (*google.golang.org/grpc.ClientConn).Close":                          "the replaced peer connection is closed while the peer table is locked; ClientConn.Close does not wait for RPCs",
+	"(*proxy.shardEventDelegate).NotifyLeave [mlMutex]: call (*github.com/hashicorp/memberlist.Memberlist).NumMembers":            "mlMutex exists to serialise memberlist API calls; NumMembers reads local state",
+	"(*proxy.shardManagerImpl).RegisterShard$1 [mlMutex]: call (*github.com/hashicorp/memberlist.Memberlist).UpdateNode":          "mlMutex exists to serialise memberlist API calls; runs in its own goroutine",
+	"(*proxy.shardManagerImpl).UnregisterShard$1 [mlMutex]: call (*github.com/hashicorp/memberlist.Memberlist).UpdateNode":        "mlMutex exists to serialise memberlist API calls; runs in its own goroutine",
+	"(*proxy.shardManagerImpl).broadcastShardChange$1 [mlMutex]: call (*github.com/hashicorp/memberlist.Memberlist).Members":      "mlMutex exists to serialise memberlist API calls; runs in its own goroutine",
+	"(*proxy.shardManagerImpl).broadcastShardChange$1 [mlMutex]: call (*github.com/hashicorp/memberlist.Memberlist).SendReliable": "mlMutex exists to serialise memberlist API calls; runs in its own goroutine",
+	"(*proxy.shardManagerImpl).retryJoinCluster [mlMutex]: call (*github.com/hashicorp/memberlist.Memberlist).Join":               "mlMutex exists to serialise memberlist API calls",
+	"(*proxy.shardManagerImpl).shutdownMemberlist [mlMutex]: call (*github.com/hashicorp/memberlist.Memberlist).Leave":            "mlMutex exists to serialise memberlist API calls (shutdown)",
+	"(*proxy.shardManagerImpl).shutdownMemberlist [mlMutex]: call (*github.com/hashicorp/memberlist.Memberlist).Shutdown":         "mlMutex exists to serialise memberlist API calls (shutdown)",
+}
+
+// checkShardKeyFunction: see O8.9 (also filed under C09 as O9.7).
+func checkShardKeyFunction(c *Ctx, res *report.Result, rule string) {
+	f := resolve(c, res, rule, anchor{"proxy", "", "ClusterShardIDtoShortString"})
+	if f == nil {
+		return
+	}
+	ok := false
+	why := "no fmt.Sprintf of both ids found"
+	for _, call := range flow.Calls(f) {
+		cc := call.Common()
+		if !flow.IsCallTo(cc, "fmt", "", "Sprintf") || len(cc.Args) != 2 {
+			continue
+		}
+		format, isS := flow.ConstString(cc.Args[0])
+		if !isS {
+			why = "non-constant format"
+			continue
+		}
+		var fields []string
+		for _, alt := range flow.SliceSeqs(cc.Args[1]) {
+			fields = fields[:0]
+			for _, e := range alt.Elems {
+				p, _ := flow.FieldPath(flow.Strip(e))
+				fields = append(fields, p)
+			}
+		}
+		hasC, hasS := false, false
+		for _, p := range fields {
+			if strings.HasSuffix(p, ".ClusterID") {
+				hasC = true
+			}
+			if strings.HasSuffix(p, ".ShardID") {
+				hasS = true
+			}
+		}
+		sepOK := regexp.MustCompile(`^%d[^%0-9]+%d$`).MatchString(format)
+		switch {
+		case !hasC || !hasS:
+			why = fmt.Sprintf("the key is built from %v: it does not contain both the cluster id and the shard id", fields)
+		case !sepOK:
+			why = fmt.Sprintf("format %q does not separate the two ids by a non-digit: distinct shards can render to the same key", format)
+		default:
+			ok = true
+		}
+	}
+	res.Check(ok, rule, "ClusterShardIDtoShortString renders cluster id and shard id unambiguously", fnPos(c.Prog, f), "%d<sep>%d of ClusterID, ShardID", why)
 }
